@@ -330,11 +330,12 @@ def cfg_text(family, tier, prop):
     t += "  WithPrep = %s\n" % ("TRUE" if prop == "C19" else "FALSE")
     t += "SPECIFICATION MCSpec\nCONSTRAINT MCConstraint\nVIEW MCView\nCHECK_DEADLOCK FALSE\n"
     inv, prp = TLC_NAMES[prop]
-    if tier == "quick" and family not in ("money", "collateral"):
-        # the refinement of Ledger.tla costs about 3x: in the quick tier on one family per property
+    if (tier == "quick" and family not in ("money", "collateral")) or family == "two":
+        # the refinement of Ledger.tla costs about 3x: in the quick tier on one family per property, and never on the
+        # largest family (two contexts: 1.6e7 states in the thorough tier)
         inv = [x for x in inv if x != "LedgerInv"]
         prp = [x for x in prp if x != "LedgerRefined"]
-    if family in ("react", "react2") or (tier == "quick" and family != "lifecycle"):
+    if family in ("react", "react2", "two") or (tier == "quick" and family != "lifecycle"):
         # Scheduler.tla: not for the families with nested keeper calls (two scheduler steps in one); quick: one family
         inv = [x for x in inv if x != "SchedulerInv"]
         prp = [x for x in prp if x != "SchedulerRefined"]
@@ -352,7 +353,7 @@ def mc_runs(prop, tier, seed):
         return runs
     for fam in PROP_FAMILIES.get(prop, []):
         runs.append({"module": FAMILY[fam]["module"], "cfg": cfg_text(fam, tier, prop),
-                     "tag": "%s-%s" % (fam, tier), "timeout": 600 if tier == "quick" else 3000})
+                     "tag": "%s-%s" % (fam, tier), "timeout": 600 if tier == "quick" else 6000})
     return runs
 
 
